@@ -232,9 +232,8 @@ def main():
                 bad.add('<dependency of TTV.Props.%s>' % pid)
             broken.append(('proof', 'theorems that no longer check: %s :: %s' % (sorted(bad), out[-800:])))
             pnames = [n for n, _ in names if core.is_property_theorem(n)]
-            obligations, discharged = len(pnames), len([n for n in pnames if n not in bad])
-            if any(b.startswith('<') for b in bad):
-                discharged = 0
+            # the module as a whole does not check any more: none of its theorems is available
+            obligations, discharged = len(pnames), 0
         else:
             obligations, discharged, axioms, problems = core.audit(pid)
             hits = core.grep_forbidden()
